@@ -51,6 +51,8 @@ pub struct Outcome {
     pub fault_fired: Option<(u64, Site)>,
     pub depth_error: bool,
     pub yields: u64,
+    /// an `output` declaration whose value is not portable (main.rs: `[output error]`, exit 1)
+    pub output_error: bool,
 }
 
 // ---------------------------------------------------------------------------------------
@@ -67,6 +69,12 @@ pub struct HookState {
     /// Steps (within the current statement) at which to hand control to the scheduler.
     pub yield_at: Vec<u64>,
     pub yields: u64,
+    /// Count of all hook points incl. heap-cell accesses (yield-only sites), and the points of
+    /// that finer count at which to hand control to the scheduler.
+    pub hstep: u64,
+    pub yield_heap_at: Vec<u64>,
+    /// dense preemption: yield at every n-th hook point of any kind (0 = off)
+    pub yield_every: u64,
 }
 
 thread_local! {
@@ -82,12 +90,22 @@ pub fn install_hooks() {
             if !h.counting {
                 return (false, false);
             }
+            h.hstep += 1;
+            if site == Site::Heap {
+                // yield-only site: never a fault point, not part of the fault-step numbering
+                let hs = h.hstep;
+                let y = h.yield_heap_at.contains(&hs) || (h.yield_every > 0 && hs % h.yield_every == 0);
+                if y {
+                    h.yields += 1;
+                }
+                return (false, y);
+            }
             h.step += 1;
             if site == Site::Call {
                 h.call_steps += 1;
             }
             let step = h.step;
-            let y = h.yield_at.contains(&step);
+            let y = h.yield_at.contains(&step) || (h.yield_every > 0 && h.hstep % h.yield_every == 0);
             if y {
                 h.yields += 1;
             }
@@ -272,11 +290,13 @@ pub struct EvalCfg {
     pub depth0: usize,
     pub inject_at: Option<u64>,
     pub yield_at: Vec<u64>,
+    pub yield_heap_at: Vec<u64>,
+    pub yield_every: u64,
 }
 
 impl Default for EvalCfg {
     fn default() -> Self {
-        EvalCfg { depth0: 0, inject_at: None, yield_at: vec![] }
+        EvalCfg { depth0: 0, inject_at: None, yield_at: vec![], yield_heap_at: vec![], yield_every: 0 }
     }
 }
 
@@ -347,6 +367,7 @@ impl Session {
                     fault_fired: None,
                     depth_error: false,
                     yields: 0,
+                    output_error: false,
                 });
                 return outs;
             }
@@ -361,6 +382,7 @@ impl Session {
                     fault_fired: None,
                     depth_error: false,
                     yields: 0,
+                    output_error: false,
                 });
                 return outs;
             }
@@ -385,6 +407,7 @@ impl Session {
                     fault_fired: None,
                     depth_error: false,
                     yields: 0,
+                    output_error: false,
                 });
                 idx += 1;
                 continue;
@@ -418,6 +441,9 @@ impl Session {
                 h.inject_at = cfg.inject_at;
                 h.fired = None;
                 h.yield_at = cfg.yield_at.clone();
+                h.yield_heap_at = cfg.yield_heap_at.clone();
+                h.yield_every = cfg.yield_every;
+                h.hstep = 0;
                 h.yields = 0;
             });
             IN_SUT.with(|f| f.set(true));
@@ -432,6 +458,7 @@ impl Session {
                 h.counting = false;
                 (h.step, h.call_steps, h.fired, h.yields)
             });
+            let mut output_error = false;
             let o = match res {
                 Ok(Ok(v)) => {
                     let canon = self.canon_of(&v);
@@ -452,6 +479,7 @@ impl Session {
                             } else {
                                 // main.rs: `[output error]` and exit 1
                                 self.output_errors.set(self.output_errors.get() + 1);
+                                output_error = true;
                                 self.outputs.borrow_mut().insert(name.clone(), Some("<output error: not portable>".to_string()));
                             }
                         }
@@ -465,6 +493,7 @@ impl Session {
                         fault_fired: fired,
                         depth_error: false,
                         yields,
+                        output_error,
                     }
                 }
                 Ok(Err(e)) => {
@@ -478,6 +507,7 @@ impl Session {
                         fault_fired: fired,
                         depth_error,
                         yields,
+                        output_error: false,
                     }
                 }
                 Err(_) => {
@@ -491,6 +521,7 @@ impl Session {
                         fault_fired: fired,
                         depth_error: false,
                         yields,
+                        output_error: false,
                     }
                 }
             };
